@@ -4361,7 +4361,7 @@ void SoPlexBase<R>::_untransformUnbounded(SolRational& sol, bool unbounded)
       sol.invalidate();
       _hasBasis = false;
       _basisStatusCols.reSize(numOrigCols);
-      _basisStatusCols.reSize(numOrigRows);
+      _basisStatusRows.reSize(numOrigRows);
    }
 
    // recover objective function
